@@ -150,8 +150,8 @@ def rules(ctx, tier):
             rf = ctx.must(None).rf(b)
             r.check(bool(rf.err_edges_of(site.bb)), "delete-error-propagates", b,
                     "a failed delete makes %s return an error" % b.path, "the result of the delete callback in %s is ignored" % b.path)
-    r.check(n >= 2, "callback-sites", None, "%d delete-callback site(s)" % n, "expected 2 delete-callback sites, found %d" % n)
-    r.need(5, "two callback sites x2 + anchor")
+    r.check(n >= 1, "callback-sites", None, "%d delete-callback site(s)" % n, "expected at least 1 delete-callback site, found %d" % n)
+    r.need(3, "at least one callback site x2 + anchor (today: 2 sites)")
     out.append(r.finish())
 
     r = Rule("R2", "reference-count balance on every path of the apply step; a hash is handed to the delete list exactly "
